@@ -29,10 +29,12 @@ def gen_cases(tier, seed):
                       "gen_seed": rnd.randrange(10 ** 9), "id": "%s#%d" % (kind, len(cases))})
 
     nreal = 6 if tier == "quick" else 30
-    for _ in range(nreal):
+    for j in range(nreal):
         add("inclusion", rnd.sample(isos, rnd.choice([1, 2, 3, 4, 6])), True,
             workload.base_country(grasses=rnd.choice(["baseline", "country_nuclear_winter"]), crop_disruption=rnd.choice(["zero", "country_nuclear_winter"]),
                                   fish=rnd.choice(["baseline", "nuclear_winter"])))
+        # every other real call also asks for the web-interface files (save_all_results): what is returned must not depend on it
+        cases[-1]["save_all"] = j % 2 == 0
     nstub = 24 if tier == "quick" else 200
     for k in range(nstub):
         kind = ["empty", "exclusion", "inclusion", "mixed", "exclusion_many", "inclusion_duplicates"][k % 6]
@@ -146,7 +148,8 @@ def audit_call(case, runner, the_list, kind, rnd):
     try:
         with contextlib.redirect_stdout(io.StringIO()):
             out = runner.run_model_no_trade(title="agg", create_pptx_with_all_countries=False, show_country_figures=False, show_map_figures=False,
-                                                            add_map_slide_to_pptx=False, scenario_option=opts, countries_list=lst, return_results=True)
+                                                            add_map_slide_to_pptx=False, scenario_option=opts, countries_list=lst, return_results=True,
+                                            save_all_results=bool(case.get("save_all")) and bool(case["real"]))
     except BaseException as e:  # noqa: BLE001
         if isinstance(e, KeyboardInterrupt):
             raise
@@ -204,6 +207,7 @@ def summarize(cases, records, tier):
         "countries_aggregated_in_total": int(sum(r["obs"]["ran"] for r in ok)),
         "calls_with_a_fraction_above_one": sum(1 for r in ok if r["obs"]["fractions_above_one"] > 0),
         "failed_calls": [r["obs"].get("failed") for r in records if r.get("status") == "ok" and r["obs"].get("failed")][:5],
+        "real_calls_with_save_all_results": sum(1 for c, r in zip(cases, records) if c.get("save_all") and r.get("status") == "ok" and r["obs"].get("audited")),
         "sequences_on_one_runner": sum(1 for r in ok if r["obs"]["kind"] == "sequence_on_one_runner"),
         "calls_on_a_reused_runner": int(sum(r["obs"].get("calls_in_sequence", 1) - 1 for r in ok if r["obs"]["kind"] == "sequence_on_one_runner")),
     }
